@@ -75,8 +75,20 @@ pub fn run(r: &mut Rng, n: usize, zone_side: bool, out: &mut Out) {
         };
         let zone_input = tool.starts_with('z');
         let text = if zone_input {
-            match r.below(3) {
-                0 => crate::streams::ztext::fuzz_text(r),
+            match r.below(7) {
+                0 | 1 => crate::streams::ztext::fuzz_text(r),
+                2 => {
+                    // line ends that are DATA: a CR LF inside a quoted string, a backslash right before a
+                    // CR LF, a lone CR - the binary must hand the parser the very octets it was given
+                    let w = *r.pick(&["a", "bb", "x y", ""]);
+                    let eol = *r.pick(&["\r\n", "\n", "\r\n"]);
+                    match r.below(4) {
+                        0 => format!("$ORIGIN e.{eol}t 300 IN TXT \"{w}\r\n{w}z\"{eol}"),
+                        1 => format!("$ORIGIN e.{eol}t 300 IN TXT {w}q\\\r\nu 300 IN A 1.2.3.4{eol}"),
+                        2 => format!("$ORIGIN e.{eol}t 300 IN TXT \"{w}\r{w}\"{eol}u 300 IN TXT k\rk{eol}"),
+                        _ => format!("$ORIGIN e.{eol}t 300 IN TXT ( \"{w}\" ;c\r\n \"l2\r\n\" ){eol}"),
+                    }
+                }
                 _ => crate::streams::ztext::rendered_text(r),
             }
         } else {
